@@ -33,11 +33,11 @@ MANIFEST = {
     'technique': 'explicit-state BFS over request histories on the real application (fresh import per replay), states '
                  'deduplicated by a canonical walk of all retained objects; per-transition differential oracle against a '
                  'fresh process; fixpoint = bounded retained state; k^N liveness runs with weak references',
-    'text': 'Over 37 request kinds: all histories of 2 requests and all of 3 whose first two belong to the 19 kinds that leave something '
+    'text': 'Over 40 request kinds: all histories of 2 requests and all of 3 whose first two belong to the 21 kinds that leave something '
             'behind (quick); all of 3, all of 4 whose first three are such kinds, and BFS with state merging to '
             'depth 6 (thorough); every served response is compared with the response of the same request on a freshly '
             'imported framework; each kind is repeated N times and the live per-request objects are counted.',
-    'note': 'Bounds: 37 request kinds, depth as stated, N=2000 (thorough 5000). Trusted: CPython gc/weakref, the canonicaliser.',
+    'note': 'Bounds: 40 request kinds, depth as stated, N=2000 (thorough 5000). Trusted: CPython gc/weakref, the canonicaliser.',
 }
 
 _canon = Canon(tb=True)
@@ -91,6 +91,11 @@ KINDS = [
     # a status code without a registered phrase: once with the handler's own phrase, once as a bare number
     ('st599s', 'GET', '/st599s', {'qs': 'why=backend-db7-refused'}),
     ('st599n', 'GET', '/st599n', {}),
+    # a handler that keeps a copy of its request and listens for changes of it; a handler that edits its request's environ
+    ('listen', 'GET', '/listen', {'qs': 'ticket={i}'}),
+    ('setenv', 'GET', '/setenv', {}),
+    # another application of the process, running in debug mode, crashes with a text of its own
+    ('dbgapp', 'GET', '/boom', {'qs': 'token=4711-of-another-client'}),
     # a static file served plainly, with a Range and with If-Modified-Since; literal and wildcard sibling routes
     ('static', 'GET', '/static/f.txt', {}),
     ('static-range', 'GET', '/static/f.txt', {'headers': {'Range': 'bytes=2-5'}}),
@@ -181,6 +186,23 @@ def fresh_app():
     def st599n():
         app.response.status = 599
         return 'refused'
+    def listen():
+        snap = app.request.copy()
+        ticket = app.request.query.get('ticket', '?')
+        snap.on('env_changed', lambda *a: app.response.headers.__setitem__('X-Audit', 'ticket-' + ticket))
+        return 'listening'
+
+    def setenv():
+        app.request['HTTP_X_TRACE'] = 'trace-1'
+        return 'trace set'
+    app.route('/listen', 'GET', listen)
+    app.route('/setenv', 'GET', setenv)
+    dbg = om.Ombott({'debug': True})
+
+    def boom():
+        raise RuntimeError('cannot process ' + dbg.request.query_string)
+    dbg.route('/boom', 'GET', boom)
+    app.c09_debug_app = dbg
     app.route('/st599s', 'GET', st599s)
     app.route('/st599n', 'GET', st599n)
     app.route('/json', 'POST', lambda: repr(app.request.json))
@@ -228,7 +250,7 @@ def serve(app, k, refs=None, i=0):
     if refs is not None:
         refs.append(weakref.ref(env))
         refs.append(weakref.ref(stream))
-    c = wsgi.call(app, env)
+    c = wsgi.call(app.c09_debug_app if name == 'dbgapp' else app, env)
     if c.escaped is not None:
         return ('escaped', repr(c.escaped), b'')
     return (c.status, tuple((str(a), str(b)) for a, b in (c.headers or [])), c.body)
@@ -329,7 +351,7 @@ def solo(k):
 # the kinds that leave something behind (set a status / header / cookie, fail, carry a body, touch a cache): longer histories start
 # with these; the LAST request of a history is always any kind
 CORE = ['set', 'raise', 'badpath', '400', '413', '500', '404json', '413json', 'redirect', 'form', 'upload-full', 'upload-rich', 'session',
-        'static-range', 'badjson', 'mp-noname', 'acct', 'st599s', 'user-me']
+        'static-range', 'badjson', 'mp-noname', 'acct', 'st599s', 'user-me', 'listen', 'dbgapp']
 
 
 def core_idx():
